@@ -137,7 +137,8 @@ func init() {
 							if t == site.read {
 								rd = true
 							}
-							if t == site.write {
+							// the octet is the first of the section wherever it is assembled: in the body's buffer or in the payload being built
+							if t == site.write || (site.fn == "Headers" && t == "ifh.exclusive{payload[0]|=0x80}") {
 								wr = true
 							}
 						}
